@@ -7,7 +7,8 @@ ID = 'C15'
 FUNCTIONS = ['core.CBlock.build_merkle_tree_from_txids', 'core.CBlock.build_merkle_tree_from_txs', 'core.CBlock.calc_merkle_root',
              'core.CBlock.build_witness_merkle_tree_from_txs', 'core.CBlock.calc_witness_merkle_root', 'core.CBlock.__init__',
              'core.CTransaction.calc_weight', 'core.CBlock.GetWeight']
-ASSUMPTIONS = ['SHA-256 as an uninterpreted function with congruence: roots are compared as nested hash terms over the same '
+ASSUMPTIONS = ['ctor_node harness: double-SHA256 collision-free among the applications of a path (a declared root equal to an inner node is then != the root)',
+               'SHA-256 as an uninterpreted function with congruence: roots are compared as nested hash terms over the same '
                'function symbol, which decides equality of the tree *shape and leaf order* for all leaf values']
 STUBS = ['hashlib (UF)', 'struct', 'io.BytesIO']
 OUTSIDE = ['transaction counts above 70', 'weight shapes beyond the C01 bounds']
@@ -88,6 +89,21 @@ def h_block(ctx, txshapes):
               'block weight == 3*stripped + full')
 
 
+def h_ctor_node(ctx, txshapes, which):
+    """the declared root is one of the tree's own nodes (a txid or an inner node) rather than the root: must be refused"""
+    C = ctx.core
+    ctx.set_state('collision_free', True)
+    hf, tfs, txs = _mk_block(ctx, txshapes, None)
+    tree = C.CBlock.build_merkle_tree_from_txs(txs)
+    declared = tree[which]
+    root = M.merkle_root(ctx, [ctx.dsha256(W.tx(ctx, f, with_witness=False)) for f in tfs])
+    try:
+        C.CBlock(hf['nVersion'], hf['hashPrevBlock'], declared, hf['nTime'], hf['nBits'], hf['nNonce'], txs)
+        ctx.check(ctx.or_(declared == root, declared == ctx.B(bytes(32))), 'constructor: mismatching declared root refused')
+    except C.CheckBlockError:
+        ctx.check(ctx.not_(declared == root), 'constructor: refused only on mismatch')
+
+
 def h_deser_block(ctx, txshapes):
     """a block arriving from the wire: roots of the deserialised object"""
     C = ctx.core
@@ -100,7 +116,7 @@ def h_deser_block(ctx, txshapes):
     ctx.check(blk.GetWeight() == 3 * len(W.block(ctx, hf, tfs, False)) + len(raw), 'block weight == 3*stripped + full')
 
 
-HARNESSES = {'txids': h_txids, 'txids_dup': h_txids_dup, 'block': h_block, 'deser_block': h_deser_block}
+HARNESSES = {'ctor_node': h_ctor_node, 'txids': h_txids, 'txids_dup': h_txids_dup, 'block': h_block, 'deser_block': h_deser_block}
 
 
 def instances(tier):
@@ -119,6 +135,8 @@ def instances(tier):
     shapes = [[t_a], [t_w], [t_a, t_a], [t_a, t_w], [t_w, t_a], [t_a, t_b, t_w2], [t_w, t_w2, t_a], [t_e, t_a], [t_a, t_a, t_a], [t_a, t_z], [t_z]]
     if tier != 'quick':
         shapes += [[t_a, t_b, t_w, t_w2], [t_w2] * 5, [t_a] * 7]
+    for sh, which in (([t_a, t_a], 0), ([t_a, t_b], 1), ([t_a, t_a, t_a], 3), ([t_a, t_b, t_a], 2), ([t_a, t_a, t_a], 4)):
+        out.append(dict(h='ctor_node', p=dict(txshapes=sh, which=which)))
     for sh in shapes:
         out.append(dict(h='block', p=dict(txshapes=sh)))
         out.append(dict(h='deser_block', p=dict(txshapes=sh)))
